@@ -93,6 +93,7 @@ type collator_[V any] struct {
 	class_   CollatorClassLike[V]
 	depth_   int
 	maximum_ int
+	mutex_   syn.Mutex // Guards the depth while a traversal is in progress.
 }
 
 // Attributes
@@ -112,11 +113,17 @@ func (v *collator_[V]) GetMaximum() int {
 // Public
 
 func (v *collator_[V]) CompareValues(first V, second V) bool {
+	// NOTE: A set hands its collator on to the sets derived from it (And, Or,
+	// Sans, Xor), which may be used by other goroutines.
+	v.mutex_.Lock()
+	defer v.mutex_.Unlock()
 	v.depth_ = 0 // A previous call may have ended with the maximum depth panic.
 	return v.compareValues(ref.ValueOf(first), ref.ValueOf(second))
 }
 
 func (v *collator_[V]) RankValues(first V, second V) Rank {
+	v.mutex_.Lock()
+	defer v.mutex_.Unlock()
 	v.depth_ = 0 // A previous call may have ended with the maximum depth panic.
 	return v.rankValues(ref.ValueOf(first), ref.ValueOf(second))
 }
